@@ -408,6 +408,11 @@ func (w *l1World) newTuple(rt *rapid.T, b *mBridge) wd {
 			}
 		}
 	}
+	if len(b.Pool) > 0 && rapid.IntRange(0, 14).Draw(rt, "dupSeq") == 0 {
+		// another withdrawal under an L2 sequence number that was used before (L1 keys claims by their hash,
+		// the number is just one of the hashed fields)
+		t.Seq = b.Pool[rapid.IntRange(0, len(b.Pool)-1).Draw(rt, "dupOf")].Seq
+	}
 	b.NextWdSeq++
 	b.Pool = append(b.Pool, t)
 	return t
@@ -672,8 +677,12 @@ func (w *l1World) opClaim(rt *rapid.T) *l1Step {
 	t := o.Tuples[pos]
 	index := o.Index
 	okBuilt := true
-	variant := drawWeighted(rt, "claimkind", []weighted{{"valid", 14}, {"otherindex", 2}, {"otherbridge", 2}, {"foreign", 1}, {"respell", 2}})
+	variant := drawWeighted(rt, "claimkind", []weighted{{"valid", 14}, {"otherindex", 2}, {"otherbridge", 2}, {"foreign", 1}, {"respell", 2}, {"respell-denom", 1}})
 	switch variant {
+	case "respell-denom":
+		// the token under the name it has on L2 (the bridge may know the pair): not the committed withdrawal
+		t.Denom = ref.L2Denom(t.Bridge, t.Denom)
+		okBuilt = false
 	case "otherindex":
 		// same proof material offered against another index of the same bridge
 		if len(b.Outputs) > 0 {
@@ -850,7 +859,7 @@ func (w *l1World) opRole(rt *rapid.T) *l1Step {
 	case "batch":
 		// the submitter is whatever names the account on the data-availability chain: only "not empty" is required
 		submitter := rapid.SampledFrom([]string{nu.Str, nu.Str, "batch-submitter-01", "celestia1qqqsyqcyq5rqwzqfpg9scrgwpugpzysn3xzs4l", strings.ToUpper(nu.Str), "提出者"}).Draw(rt, "submitter")
-		bi := ophosttypes.BatchInfo{Submitter: submitter, ChainType: ophosttypes.BatchInfo_ChainType(rapid.IntRange(1, 2).Draw(rt, "chain"))}
+		bi := ophosttypes.BatchInfo{Submitter: submitter, ChainType: ophosttypes.BatchInfo_ChainType(rapid.SampledFrom([]int32{1, 2, 1, 2, 1, 2, 0, 7}).Draw(rt, "chain"))} // 0 = unspecified, 7 = not a chain type at all
 		if b.LastBatch != nil && rapid.IntRange(0, 3).Draw(rt, "retryBatch") == 0 {
 			bi = *b.LastBatch // the same update once more (a retried transaction): the history gets a second, equal entry
 		}
